@@ -7,11 +7,12 @@
 
     [failPlan x] = [[(x, WFn, AFail FErr)]]: the function of node [x] returns an error whenever
     it is invoked in this pass.  Serial pass, state satisfying [wfb] and [ValInv].
-    NOT covered: [AFail FPanic].  After a recovered panic the node's [recomputedAt] stamp is 0
-    while its [changedAt] stamp is kept, which falsifies the stamp clause of [ValInv]
-    ([changedAt <= recomputedAt]; seen on replayed histories of the profiles faults /
-    alwaysfaults), so the pass theorems of PassProofs.v do not apply to the state after a panic;
-    EngineLocal's function-level [C07_panicked_node_requeued] covers the re-queueing.
+    [panicPlan x] = [[(x, WFn, AFail FPanic)]]: the function of node [x] panics; the pass recovers
+    the panic and returns [EPanic x]; same conclusions ([C07_static_panic_and_retry]).  After a
+    recovered panic the node's [recomputedAt] stamp is reset to 0 while its [changedAt] stamp is
+    kept, so [changedAt <= recomputedAt] is not an invariant; the stamp clause of [ValInv]
+    ([PassInv.stamps_node]) says that both stamps lie between 0 and the pass counter (strictly
+    below it between passes).
     Proofs: PassPlanProofs.v. *)
 From incr Require Import Base Heap HeapSpec EngineDefs Engine EngineRun EngineWf Spec EngineLemmas EngineLocal
      EngineInv EngineInvProofs PassInv PassProofs PassPlanProofs PassPlanProofs2.
@@ -23,6 +24,15 @@ Theorem C07_static_error_and_retry : forall s x s' e,
               observers_agree s'' = true /\ wfb s'' = true /\ ValInv s''.
 Proof. exact pass_fail_retry. Qed.
 Print Assumptions C07_static_error_and_retry.
+
+(** the same for a node function that panics: the recovered panic is returned as [EPanic x] *)
+Theorem C07_static_panic_and_retry : forall s x s' e,
+  wfb s = true -> ValInv s -> stabilize (panicPlan x) false s = Ok (s', Some e) ->
+  e = EPanic x /\ wfb s' = true /\ ValInv s' /\ inHeap s' x = true /\
+  exists s'', stabilize [] false s' = Ok (s'', None) /\ consistent s'' = true /\
+              observers_agree s'' = true /\ wfb s'' = true /\ ValInv s''.
+Proof. exact pass_panic_retry. Qed.
+Print Assumptions C07_static_panic_and_retry.
 
 (** the step behind it: the failing recompute restores the node's stamp and puts it back into
     the queue; no node record changes, and the loop invariant holds again (with nothing "about to
@@ -102,7 +112,8 @@ Theorem C07_history_invariants : forall mh os s,
 Proof. exact frag_history_inv. Qed.
 Print Assumptions C07_history_invariants.
 
-(** whatever writes and failures ([EUser] of a single failing node function) the earlier passes
+(** whatever writes and failures ([EUser] / [EPanic] of a single failing or panicking node
+    function) the earlier passes
     of such a history had, every plan-free pass succeeds and ends with every registered node
     locally consistent and every observer reading the from-scratch value of its node *)
 Theorem C07_history_bindfree : forall mh os1 os2 s',
@@ -114,6 +125,11 @@ Proof. exact history_planfree_pass. Qed.
 Print Assumptions C07_history_bindfree.
 
 (** what a pass of the fragment can return *)
+Theorem C07_static_panicPlan_result : forall s x s' e,
+  wfb s = true -> ValInv s -> stabilize (panicPlan x) false s = Ok (s', e) -> e = None \/ e = Some (EPanic x).
+Proof. exact panicPlan_result. Qed.
+Print Assumptions C07_static_panicPlan_result.
+
 Theorem C07_static_failPlan_result : forall s x s' e,
   wfb s = true -> ValInv s -> stabilize (failPlan x) false s = Ok (s', e) -> e = None \/ e = Some (EUser x).
 Proof. exact failPlan_result. Qed.
@@ -124,3 +140,18 @@ Print Assumptions C07_static_failPlan_result.
 Example C07_history_ex :
   forallb static_op2 ex_history2 = true /\ exists s', run_clean (init 64) ex_history2 = Some s'.
 Proof. exact ex_history2_clean. Qed.
+
+(** Non-vacuity for panics: in [ex_pre] the function of node 4 panics; and [ex_history3] ([ex_ops],
+    a pass in which node 4's function panics, one in which it returns an error, a plan-free pass)
+    is a clean history of the fragment. *)
+Example C07_static_panic_ex :
+  wfb ex_pre = true /\ ValInv ex_pre /\ stabilize (panicPlan 4) false ex_pre = Ok (ex_ppost, Some (EPanic 4%nat)) /\
+  Heap.ids (heap ex_ppost) = [4; 7; 9]%nat.
+Proof.
+  split; [exact (proj1 ex_pre_hyps)|]. split; [exact (proj2 ex_pre_hyps)|]. split; [exact ex_ppass|].
+  vm_compute; reflexivity.
+Qed.
+
+Example C07_history_panic_ex :
+  forallb static_op2 ex_history3 = true /\ exists s', run_clean (init 64) ex_history3 = Some s'.
+Proof. exact ex_history3_clean. Qed.
